@@ -283,8 +283,9 @@ def run(ck):
         for e in dones:
             reached = []
 
-            def step4(st, ev):
-                if is_reset(ev):
+            def step4(st, ev, name=name):
+                # (on the time-out path the late response is still to come: only closing the connection counts, see C04-R1)
+                if (is_reset(ev) and name != "handleTimeout") or (ev["k"] == "call" and (ev.get("callee") or "").endswith("Connection::close")):
                     return None
                 if ev is e:
                     reached.append(ev)
